@@ -1158,7 +1158,7 @@ func c11Spec() propSpec {
 		prop: "C11", test: "TestVerifC11ConsumerViews",
 		rule: "histories of 4-45 ops against one real Mirror with explicit consumer schedules: both output channels are drained only when an op says so (stall / resume / read n), state machine entrances race with view shifts, honest macro rounds incl. nil rounds and partial votes, next-round votes that make the mirror skip, proposals, concurrent groups; per consumer and round: versions strictly increase, proposals and signer sets only grow, received values never change after receipt, a drained consumer holds the mirror's current view, and a round left by nil commit / full vote / skip is explained to the state machine (votes or jump-ahead) and to gossip (NilVotedRound); non-trivial = a view shift (commit or round change) happened while a consumer was stalled with an update pending; distinct = fingerprint of (config, op list)",
 		profile: genProfile{
-			w:              map[string]int{"ph": 3, "vote": 8, "round": 8, "sment": 4, "smact": 2, "stall": 4, "read": 4, "conc": 1},
+			w:              map[string]int{"ph": 3, "vote": 8, "round": 8, "sment": 4, "smact": 2, "stall": 4, "read": 4, "conc": 5},
 			phVariants:     []int{phFresh, phFresh, phAltNext, phBadSig},
 			pcpVariants:    []int{pcpExact},
 			voteCorr:       []int{vcNone, vcNone, vcFlip},
@@ -1167,6 +1167,7 @@ func c11Spec() propSpec {
 			dh: []int{0, 0, 0, 0, -1, 1}, dr: []int{0, 0, 0, 1, 1},
 			multiTarget: true,
 			nilRounds:   true,
+			concVoting:  true,
 		},
 		oracle: c11Oracle,
 		final:  c11Final,
